@@ -29,6 +29,7 @@ import (
 	"istio.io/istio/pilot/pkg/networking/util"
 	"istio.io/istio/pilot/pkg/util/protoconv"
 	"istio.io/istio/pkg/config/host"
+	"istio.io/istio/pkg/maps"
 	"istio.io/istio/pkg/util/sets"
 )
 
@@ -37,7 +38,8 @@ import (
 func (g *GrpcConfigGenerator) BuildClusters(node *model.Proxy, push *model.PushContext, names []string) model.Resources {
 	filter := newClusterFilter(names)
 	clusters := make([]*cluster.Cluster, 0, len(names))
-	for defaultClusterName, subsetFilter := range filter {
+	// in the order of the cluster names: the response must not depend on map iteration order
+	for defaultClusterName, subsetFilter := range maps.SeqStable(filter) {
 		builder, err := newClusterBuilder(node, push, defaultClusterName, subsetFilter)
 		if err != nil {
 			log.Warn(err)
